@@ -1775,3 +1775,193 @@ def m_opaque_copy(I, st, v):
 
 
 _METHODS[(VOpaque, 'copy')] = m_opaque_copy
+
+
+# ----------------------------------------------------------------------------- string columns (pandas Series of str) and concatenation laws (C10, C11)
+def _slaw():
+    """Concatenation laws of the opaque string sort.  Every law below has a twin in the SMT-LIB theory of strings
+    (`string_law_twins`) that is proved by z3 / cvc5 on every run of the checks that use it, so none of them is an assumption."""
+    from . import sym as _sym
+    from . import speclib as sp
+    if hasattr(_slaw, 'd'):
+        return _slaw.d
+    P = _sym.PSTR
+    C, LEN, HAS, OFI = _sym.PCONCAT, _sym.PLEN, _sym.PCONTAINS, _sym.PSTR_OF_INT
+    colon, empty = _sym.pstr_lit(':'), _sym.pstr_lit('')
+    LP = z3.Function('lp', P, P)                      # the length-prefixed rendering  f'{len(v)}:{v}'
+    XXH = z3.Function('xxh64_hexdigest', P, P)
+    a, b, c, x, y = (z3.Const('sl_' + n, P) for n in 'abcxy')
+    n, m = z3.Int('sl_n'), z3.Int('sl_m')
+    ax = []
+
+    def law(name, f, decl):
+        sp.axiom(name, f, decl, opaque=True)
+        ax.append(name)
+    law('pstr.lp_def', z3.ForAll([a], LP(a) == C(C(OFI(LEN(a)), colon), a), patterns=[LP(a)]), 'lp')
+    law('pstr.assoc', z3.ForAll([a, b, c], C(C(a, b), c) == C(a, C(b, c)), patterns=[C(C(a, b), c)]), 'lp')
+    law('pstr.concat_empty_r', z3.ForAll([a], C(a, empty) == a, patterns=[C(a, empty)]), 'lp')
+    law('pstr.len_nonneg', z3.ForAll([a], LEN(a) >= 0, patterns=[LEN(a)]), 'lp')
+    law('pstr.of_int_no_colon', z3.ForAll([n], z3.Implies(n >= 0, z3.Not(HAS(OFI(n), colon))), patterns=[OFI(n)]), 'pstr_of_int')
+    law('pstr.of_int_injective', z3.ForAll([n, m], z3.Implies(z3.And(n >= 0, m >= 0, OFI(n) == OFI(m)), n == m),
+                                           patterns=[z3.MultiPattern(OFI(n), OFI(m))]), 'pstr_of_int')
+    law('pstr.split_first_colon', z3.ForAll([a, b, x, y], z3.Implies(
+        z3.And(z3.Not(HAS(a, colon)), z3.Not(HAS(b, colon)), C(a, C(colon, x)) == C(b, C(colon, y))), z3.And(a == b, x == y)),
+        patterns=[z3.MultiPattern(C(a, C(colon, x)), C(b, C(colon, y)))]), 'pstr_of_int')
+    law('pstr.cancel_equal_length', z3.ForAll([a, b, x, y], z3.Implies(
+        z3.And(LEN(a) == LEN(b), C(a, x) == C(b, y)), z3.And(a == b, x == y)),
+        patterns=[z3.MultiPattern(C(a, x), C(b, y))]), 'pstr_of_int')
+    # xxh64: "up to 64-bit hash collisions" is part of the property statement -> collision freedom is the stated idealisation
+    sp.axiom('xxh64.collision_free(stated idealisation)', z3.ForAll([a, b], z3.Implies(XXH(a) == XXH(b), a == b),
+                                                                    patterns=[z3.MultiPattern(XXH(a), XXH(b))]), 'xxh64_hexdigest')
+    # the prefix-code lemma used by clients: proved from the laws above (speclib lemma `lp_prefix_code`)
+    sp.lemma('lp_prefix_code',
+             z3.ForAll([a, b, x, y], z3.Implies(C(LP(a), x) == C(LP(b), y), z3.And(a == b, x == y)),
+                       patterns=[z3.MultiPattern(C(LP(a), x), C(LP(b), y))]),
+             [('direct', z3.ForAll([a, b, x, y], z3.Implies(C(LP(a), x) == C(LP(b), y), z3.And(a == b, x == y))))],
+             unfold=['lp', 'pstr_of_int'])
+    _slaw.d = dict(LP=LP, XXH=XXH, laws=ax)
+    return _slaw.d
+
+
+def string_law_twins():
+    """[(name, formula over the SMT-LIB theory of strings)]: the same laws stated about real (unbounded unicode) strings."""
+    S = z3.StringSort()
+    a, b, c, x, y = (z3.Const('tw_' + n, S) for n in 'abcxy')
+    n, m = z3.Int('tw_n'), z3.Int('tw_m')
+    colon = z3.StringVal(':')
+    cat = z3.Concat
+    return [
+        ('pstr.assoc', cat(cat(a, b), c) == cat(a, cat(b, c))),
+        ('pstr.concat_empty_r', cat(a, z3.StringVal('')) == a),
+        ('pstr.len_nonneg', z3.Length(a) >= 0),
+        ('pstr.of_int_no_colon', z3.Implies(n >= 0, z3.Not(z3.Contains(z3.IntToStr(n), colon)))),
+        ('pstr.of_int_injective', z3.Implies(z3.And(n >= 0, m >= 0, z3.IntToStr(n) == z3.IntToStr(m)), n == m)),
+        ('pstr.split_first_colon', z3.Implies(z3.And(z3.Not(z3.Contains(a, colon)), z3.Not(z3.Contains(b, colon)),
+                                                     cat(a, cat(colon, x)) == cat(b, cat(colon, y))), z3.And(a == b, x == y))),
+        ('pstr.cancel_equal_length', z3.Implies(z3.And(z3.Length(a) == z3.Length(b), cat(a, x) == cat(b, y)), z3.And(a == b, x == y))),
+    ]
+
+
+def _series(ek, n, arr, owned=True):
+    v = VSeq(ek, n, arr, flavor='series')
+    v.owned = z3.BoolVal(owned)      # ownership (no other holder of the object): symbolic, so that loops must state it
+    return v
+
+
+def _as_series(I, st, v):
+    if isinstance(v, VObj) and v.cls == 'Series':
+        s = v.fields['values']
+        r = _series(s.ek, s.length, s.arr, owned=False)
+        return r
+    if isinstance(v, VSeq) and v.flavor == 'series':
+        return v
+    raise EngineError(f'not a Series: {v!r}')
+
+
+def _elementwise(I, st, s, f, what):
+    """[f(x) for x in s] as a new column; f is evaluated once on a symbolic cell."""
+    k = z3.Int(fresh_name('row'))
+    st.guards.append(z3.And(k >= 0, k < s.length))
+    I.bound.append(k)
+    try:
+        r = f.call(I, st, [from_term(s.arr[k], s.ek)], {})
+    finally:
+        st.guards.pop()
+        I.bound.pop()
+    ek = r.kind
+    R = z3.Array(fresh_name(what), z3.IntSort(), sort_of(ek))
+    I.assume(st, z3.ForAll([k], z3.Implies(z3.And(k >= 0, k < s.length), R[k] == to_term(r, ek)), patterns=[R[k]]))
+    return _series(ek, s.length, R)
+
+
+def series_astype(I, st, s, dt):
+    """Series.astype(str) on a column whose cells are already str: a copy with the same cells (the pipeline's frames hold
+    strings only; astype returns a new object)."""
+    s = _as_series(I, st, s)
+    if dtype_of(dt) != 'str' or s.ek not in ('pstr', 'str'):
+        raise EngineError('Series.astype other than str on a str column')
+    return _series(s.ek, s.length, s.arr)
+
+
+def series_map(I, st, s, f, **kw):
+    """Series.map(f) / Series.apply(f) with a scalar function: element-wise, same index, new object."""
+    s = _as_series(I, st, s)
+    if not isinstance(f, VFunc):
+        raise EngineError('Series.map with a non-function')
+    return _elementwise(I, st, s, f, 'mapped')
+
+
+for _cls in ('Series',):
+    _OBJ_METHODS[(_cls, 'astype')] = series_astype
+    _OBJ_METHODS[(_cls, 'map')] = series_map
+    _OBJ_METHODS[(_cls, 'apply')] = series_map
+    TRUSTED_NAMES.update({'Series.astype', 'Series.map', 'Series.apply', 'Series.__add__'})
+
+
+def m_series_dispatch(name, fn):
+    def f(I, st, s, *a, **k):
+        if s.flavor != 'series':
+            raise EngineError(f'{name} on a non-Series sequence')
+        return fn(I, st, s, *a, **k)
+    return f
+
+
+_prev_astype = _METHODS[(VSeq, 'astype')]
+
+
+def _seq_astype(I, st, a, dt):
+    if a.flavor == 'series':
+        return series_astype(I, st, a, dt)
+    return _prev_astype(I, st, a, dt)
+
+
+_METHODS[(VSeq, 'astype')] = _seq_astype
+_METHODS[(VSeq, 'map')] = m_series_dispatch('map', series_map)
+_METHODS[(VSeq, 'apply')] = m_series_dispatch('apply', series_map)
+
+
+def series_binop(I, st, op, a, b, inplace, txt):
+    """Series + Series of strings over the same RangeIndex: element-wise concatenation.  `+=` mutates the left object in place,
+    which is only allowed on a Series this function created itself (otherwise another holder of the object sees the change)."""
+    from . import sym as _sym
+    if not isinstance(op, ast.Add):
+        raise EngineError(f'Series operator {type(op).__name__}')
+    a, b = _as_series(I, st, a), _as_series(I, st, b)
+    if a.ek != b.ek or a.ek not in ('pstr', 'str'):
+        raise EngineError('Series + Series on non-string columns')
+    I.oblige(st, f'rows[{txt}]', a.length == b.length, text=txt)
+    if inplace:
+        I.oblige(st, f'frame[{txt}: in-place update of a Series this function does not own]', getattr(a, 'owned', z3.BoolVal(False)), text=txt)
+    k = z3.Int(fresh_name('row'))
+    R = z3.Array(fresh_name('cat'), z3.IntSort(), sort_of(a.ek))
+    cat = _sym.PCONCAT if a.ek == 'pstr' else z3.Concat
+    I.assume(st, z3.ForAll([k], z3.Implies(z3.And(k >= 0, k < a.length), R[k] == cat(a.arr[k], b.arr[k])), patterns=[R[k]]))
+    if inplace:
+        a.arr = R
+        return a
+    return _series(a.ek, a.length, R)
+
+
+def m_pstr_join(I, st, sep, seq):
+    """sep.join(seq) over opaque strings: the uninterpreted join of the first len(seq) cells."""
+    d = _lsym()
+    if not (isinstance(seq, VSeq) and seq.ek == 'pstr' and sep.opaque):
+        raise EngineError('str.join on this operand')
+    return VStr(d['JOIN'](sep.t, seq.length, seq.arr))
+
+
+_METHODS[(VStr, 'join')] = m_pstr_join
+
+
+@stub('xxhash.xxh64')
+def s_xxh64(I, st, args, kwargs):
+    return VObj('xxh64', {'data': args[0] if args else VNone()})
+
+
+@objmethod('xxh64', 'hexdigest')
+def xxh64_hexdigest(I, st, hasher):
+    """xxh64(data).hexdigest(): a deterministic function of the hashed string (collision freedom is the property's stated idealisation)."""
+    v = hasher.fields['data']
+    if not (isinstance(v, VStr) and v.opaque):
+        raise EngineError('xxh64 of a non-string')
+    return VStr(_slaw()['XXH'](v.t))
